@@ -82,14 +82,29 @@ def build_driver(verbose=False):
     return exe
 
 
+class DriverHang(Exception):
+    pass
+
+
 class Driver(object):
     def __init__(self, exe):
         self.p = subprocess.Popen([exe], stdin=subprocess.PIPE, stdout=subprocess.PIPE,
                                   text=True, bufsize=1)
 
+    RPC_TIMEOUT_S = 20.0
+
     def _rpc(self, text):
+        import select
+
         self.p.stdin.write(text)
         self.p.stdin.flush()
+        # the back-end answers in milliseconds; a silent driver is a non-terminating
+        # compilation (reported by the caller), never something to wait out
+        r, _w, _x = select.select([self.p.stdout], [], [], self.RPC_TIMEOUT_S)
+        if not r:
+            self.p.kill()
+            raise DriverHang(f"no answer from the STRL back-end within "
+                             f"{self.RPC_TIMEOUT_S:.0f}s")
         line = self.p.stdout.readline()
         if not line:
             raise RuntimeError("STRL driver died")
